@@ -393,7 +393,6 @@ def run(ctx):
                 apply_event(rb, ("step", clock[0]), [], [])
                 continue
             k = rng.choice(outs)
-            from skepticoin.networking.remote_peer import DisconnectedRemotePeer
             rb.guard(rb.unlogged_start, DisconnectedRemotePeer(k[0], k[1], OUTGOING, None, 0))      # not one of the manager's own attempts
             trace.append("('duplicate outgoing connection', %r)" % (k,))
             check_invariants(res, rb, trace, {})
